@@ -128,6 +128,19 @@ def primed_case(draw):
 
 
 @st.composite
+def tiny_tolerance_case(draw):
+    """tolerance 0 or far below the default: exact copies (pure lattice / rigid images) next to near misses that are
+    0.016-0.048 A off, i.e. inside the *default* tolerance - a requested tolerance that does not reach the comparison
+    shows as a reported near miss"""
+    case = draw(gen_geom.planted(atols=[0.0, 0.0, 1e-6, 1e-4], noise_levels=(0.0,), max_copies=3,
+                                 decoy_kinds=["near-miss", "near-miss", "out-of-plane", "mirror"]))
+    case["call"] = draw(st.sampled_from(["keyword", "positional"]))
+    case["pattern_cell"] = False
+    case["prime"] = None
+    return case
+
+
+@st.composite
 def edit_case(draw):
     """a planted case plus in-place edits of the structure object between two searches (histories on one object)"""
     case = draw(gen_geom.planted(max_copies=3))
@@ -193,4 +206,5 @@ KNOWN_SIGS = {}
 PARTS = [
     HypPart("planted", lambda tier: primed_case(), oracle, {"quick": 8000, "thorough": 80000}),
     HypPart("edit-then-search", lambda tier: edit_case(), edit_oracle, {"quick": 1500, "thorough": 15000}),
+    HypPart("tiny-tolerance", lambda tier: tiny_tolerance_case(), oracle, {"quick": 1500, "thorough": 15000}),
 ]
